@@ -303,6 +303,40 @@ def r6_account_paths(ctx):
         r.anchor_missing("Paths accessors in functions with both `paths` and `options` (found %d)" % n)
 
 
+DROPPING = {"filter", "filter_map", "take", "skip", "take_while", "skip_while", "step_by", "retain", "retain_mut",
+            "dedup", "dedup_by", "dedup_by_key", "truncate", "drain", "pop", "swap_remove", "find", "find_map", "nth", "last"}
+
+
+def r7_nothing_filtered(ctx):
+    """The upgrader carries over whatever it reads: no element-dropping
+    adaptor (filter, filter_map, take, skip, retain, dedup, truncate ..) on
+    the collections it migrates. Expected count on the pinned tree: zero."""
+    ws = ctx.ws
+    r = ctx.rule("C19-R7", "the upgrader applies no element-dropping adaptor to the data it migrates",
+                 floor=1, kind="K1 who-may-call (expected count zero, with a mapping-call control)")
+    assert "filter_map" in DROPPING          # the matcher itself (positive control of the name table)
+    nmap = 0
+    idx = {}
+    for root, fn in sorted(ws.fns.items()):
+        if fn.crate != "sos_database_upgrader":
+            continue
+        for b, i, t in fn.calls():
+            if idioms.is_noise(t) or idioms.is_logging(t) or i not in cfg.live_blocks(b):
+                continue
+            nm = cname(t)
+            c = t.get("callee") or ""
+            if nm in ("map", "collect", "into_iter", "iter", "extend", "push"):
+                nmap += 1
+            if nm in DROPPING and re.search(r"(iter|Iterator|Vec|slice|VecDeque|HashMap|IndexMap)", c + " " + (t.get("trait") or "")):
+                idx[root] = idx.get(root, 0) + 1
+                r.violation("%s|%s#%d" % (root, nm, idx[root]), cfg.loc(b, i),
+                            "`%s` drops elements of a collection the upgrader migrates: whatever does not pass (e.g. a server origin that is not in remap_servers) silently disappears from the upgraded account" % nm, work=1)
+    if nmap >= 10:
+        r.ok("sos_database_upgrader|carries-everything", "-", "%d mapping/collecting calls in the upgrader, none of them element-dropping" % nmap, work=nmap)
+    else:
+        r.anchor_missing("mapping calls in sos_database_upgrader (found %d)" % nmap)
+
+
 def run(ctx):
     ctx.explanation = (
         "Guard, order and coverage rules over the upgrader: (R1) every creating/destructive call in the upgrader module "
@@ -319,3 +353,4 @@ def run(ctx):
     r4_backend_dispatch(ctx)
     r5_loops_visit_every_item(ctx)
     r6_account_paths(ctx)
+    r7_nothing_filtered(ctx)
